@@ -60,9 +60,10 @@ Outcome(R, n, kw, k) ==
                       ELSE <<"data", n, it + 1, kw>> >>
         ELSE o
 
-IsExc(cls) == cls \in {"E1", "E2", "E3"}
+(* E0: an Exception whose instances are falsy; B1: a BaseException; CE: a CancelledError raised by a body itself *)
+IsExc(cls) == cls \in {"E0", "E1", "E2", "E3"}
 Matches(cls, excs) ==
-    \E i \in 1..Len(excs) : excs[i] = cls \/ (excs[i] \in {"Exception", "PlanError"} /\ IsExc(cls))
+    \E i \in 1..Len(excs) : excs[i] = cls \/ (excs[i] \in {"Exception", "PlanError"} /\ IsExc(cls)) \/ excs[i] = "BaseException"
 IsBaseTok(tok) == tok[1] = "err" /\ ~IsExc(tok[5])
 
 (* retry / default policy: result, number of body invocations, whether get_default is called *)
